@@ -581,6 +581,15 @@ void tuple_algos()
       auto const res(fcppt::tuple::concat(tc(c), te{}, ta(a)));
       r.k("r", tuple_json(res)).end();
     }
+#ifdef C16_CONCAT_LVALUE
+    {
+      tc c2(c);
+      Rec r("tuple_concat");
+      r.ks("cat", "lvalue").k("ts", "[" + aj + "," + cj + "," + bj + "]").begin();
+      auto const res(fcppt::tuple::concat(a, c2, b));
+      r.k("r", tuple_json(res)).end();
+    }
+#endif
     if (v[3] == 0 && v[4] == 0 && v[5] == 0)
     {
       {
